@@ -127,13 +127,23 @@ func commitAndEdit(w http.ResponseWriter, live http.Header, code int) {
 // the library still uses is found out by what later responses, or Config(), look like.
 func afterCommit(h http.Header) {
 	n := strconv.FormatInt(appendSeq.Add(1), 10)
-	for _, v := range h {
+	for k, v := range h {
 		v = v[:cap(v)]
 		for i := range v {
+			if k == "Access-Control-Allow-Origin" && v[i] != editedOrigin && !strings.HasPrefix(v[i], editedOrigin+",") {
+				// an origin-valued field is REPLACED by an origin no configuration of the drivers allows (if the same storage is edited
+				// again it gets "one more name" like the others): storage the library still consults when it decides about origins
+				// - a memo of the last allowed origin, say - now holds it, and the probe suites offer exactly this value as an Origin
+				// right after requests from allowed origins
+				v[i] = editedOrigin
+				continue
+			}
 			v[i] += ",x-edited-after-commit-" + n
 		}
 	}
 }
+
+const editedOrigin = "https://evil.example" // scribbleWords[1]: what in-place edits write where an origin belongs
 
 // ---------------------------------------------------------------- byte helpers
 
